@@ -1,13 +1,28 @@
-/* C16: reproc_drain with its loop closed by a loop contract; reproc_poll and
- * reproc_read replaced by their contracts; the two sinks are harness functions
- * feeding a ghost monitor of the documented sink protocol (drain.h :24-41). */
+/* C16: reproc_drain, unbounded in the number of chunks.
+ *  - The for(;;) loop is closed by induction over a loop invariant, written out
+ *    in C through /repo's REPROC_VERIF_LOOP(drain) hook (verif_drain_head below):
+ *    base case, havoc of everything the loop may change, assumption of the
+ *    invariant, one arbitrary iteration, step case. Code after the loop runs from
+ *    that arbitrary state, so the postconditions hold for every iteration count.
+ *  - reproc_poll and reproc_read are replaced by their contracts "by hand": the
+ *    stubs below havoc the contract's assigns clause and assume its ensures
+ *    clauses (generated from contracts/static_reproc.h into gen/assume_*.inc).
+ *    The real functions are enforced against those contracts in the harnesses
+ *    reproc_poll_N and reproc_read.
+ *  - The two sinks are harness functions feeding a ghost monitor of the documented
+ *    sink protocol (drain.h :24-41); a sink may fail at any call. */
+#define reproc_poll real_reproc_poll
+#define reproc_read real_reproc_read
 #include "reproc.c"
+#undef reproc_poll
+#undef reproc_read
+#define VERIF_NSRC 1
 #include "static_reproc.h"
 #include "common_reproc.h"
 
 static struct {
   int calls;            /* sink calls so far (saturating)                      */
-  int last_rd_calls;    /* value of g.rl.rd_calls when the last chunk was delivered */
+  unsigned last_rd_calls; /* value of g.rl.rd_calls when the last chunk was delivered */
   bool stopped;         /* a sink returned non-zero                            */
   int stop_val;
   bool closed_out, closed_err; /* the size-zero call for that stream happened  */
@@ -15,13 +30,85 @@ static struct {
   void *ctx_out, *ctx_err;
 } verif_mon;
 
+struct ghost nondet_ghost(void);
+struct reproc_t nondet_reproc(void);
+
 #define VERIF_DRAIN_INV                                                        \
-  (verif_mon.calls >= 2 && !verif_mon.stopped && g.rl.rd_calls == verif_mon.last_rd_calls && \
+  (g.now > ((int64_t) 1 << 32) &&                                              \
+   g.e.err >= 0 && g.e.err < 134 && g.e.first_errno >= 0 && g.e.first_errno < 134 && \
+   g.e.last_fault >= 0 && g.e.last_fault < 134 && g.e.faults >= 0 && g.e.faults <= 1000 && \
+   g.e.os_calls >= 0 &&                                                        \
+   verif_mon.calls >= 2 && verif_mon.calls <= 1000 && !verif_mon.stopped &&    \
+   g.rl.rd_calls == verif_mon.last_rd_calls &&                                 \
    INV(process) && process->status != ST_IN_CHILD &&                          \
    (process->pipe.out == verif_mon.fd_out || process->pipe.out == -1) &&       \
    (process->pipe.err == verif_mon.fd_err || process->pipe.err == -1) &&       \
    (!verif_mon.closed_out || process->pipe.out == -1) &&                       \
-   (!verif_mon.closed_err || process->pipe.err == -1) && g.rl.rd_calls >= 0 && g.rl.rd_calls < 1000)
+   (!verif_mon.closed_err || process->pipe.err == -1))
+
+static bool verif_head_seen;
+
+static bool verif_drain_head(int *r, uint8_t *buffer, reproc_t *process)
+{
+  if (!verif_head_seen) {
+    verif_head_seen = true;
+    V_ASSERT("C16/drain.loop_invariant_holds_on_entry", VERIF_DRAIN_INV);
+    /* an arbitrary later iteration: everything the loop may change is arbitrary */
+    *r = nondet_int();
+    __CPROVER_havoc_slice(buffer, 4096);
+    *process = nondet_reproc();
+    g = nondet_ghost();
+    verif_mon.calls = nondet_int();
+    verif_mon.last_rd_calls = nondet_uint();
+    verif_mon.stopped = nondet_bool();
+    verif_mon.stop_val = nondet_int();
+    verif_mon.closed_out = nondet_bool();
+    verif_mon.closed_err = nondet_bool();
+    __CPROVER_assume(VERIF_DRAIN_INV);
+    return true;
+  }
+  V_ASSERT("C16/drain.loop_invariant_preserved_by_an_arbitrary_iteration", VERIF_DRAIN_INV);
+  __CPROVER_assume(0); /* induction: one iteration is all that has to be looked at */
+  return false;
+}
+
+/* ---- reproc_poll / reproc_read replaced by their contracts ---------------------- */
+
+int reproc_poll(reproc_event_source *sources, size_t num_sources, int timeout)
+{
+  /* requires */
+  V_ASSERT("C16/drain.polls_one_source_forever", sources != NULL && num_sources == 1 && timeout == -1);
+#include "gen/pre_reproc_poll.inc"
+  /* assigns: the sources' events, the error ghost, the poll ghost */
+  sources[0].events = nondet_int();
+  {
+    struct ghost h = nondet_ghost();
+    g.e = h.e;
+    g.pl = h.pl;
+    g.now = h.now;
+    g.may_block = h.may_block;
+    g.plan_pos = h.plan_pos;
+  }
+  int verif_rv = nondet_int();
+  /* ensures */
+#include "gen/assume_reproc_poll.inc"
+  return verif_rv;
+}
+
+int reproc_read(reproc_t *process, REPROC_STREAM stream, uint8_t *buffer, size_t size)
+{
+  /* requires */
+  V_ASSERT("C14+C16/drain.reads_with_a_valid_handle", process == NULL || INV(process));
+#include "gen/pre_reproc_read.inc"
+  /* assigns: the handle, the ghost, the buffer */
+  if (process != NULL) *process = nondet_reproc();
+  g = nondet_ghost();
+  if (buffer != NULL && size > 0) __CPROVER_havoc_slice(buffer, size);
+  int verif_rv = nondet_int();
+  /* ensures */
+#include "gen/assume_reproc_read.inc"
+  return verif_rv;
+}
 
 #include "drain.c"
 
@@ -77,6 +164,7 @@ void harness(void)
   static int ca, cb;
   reproc_sink out = { nondet_bool() ? NULL : sink_a, &ca };
   reproc_sink err = { nondet_bool() ? NULL : sink_b, &cb };
+  verif_head_seen = false;
   verif_mon.calls = 0;
   verif_mon.stopped = false;
   verif_mon.closed_out = verif_mon.closed_err = false;
@@ -89,23 +177,25 @@ void harness(void)
     verif_mon.fd_err = process->pipe.err;
   }
   bool misuse = process == NULL || out.function == NULL || err.function == NULL;
+  int os0 = g.e.os_calls;
 
   int verif_rv = reproc_drain(process, out, err);
 
-  V_ASSERT("C14+C16/drain.misuse_is_einval", IMPLIES(misuse, verif_rv == -EINVAL && verif_mon.calls == 0 && g.e.os_calls == 0));
+  V_ASSERT("C14+C16/drain.misuse_is_einval", IMPLIES(misuse, verif_rv == -EINVAL && verif_mon.calls == 0 && g.e.os_calls == os0));
   if (!misuse) {
     V_ASSERT("C16/drain.non_zero_sink_result_is_returned_at_once", IMPLIES(verif_mon.stopped, verif_rv == verif_mon.stop_val));
     V_ASSERT("C16/drain.zero_only_when_both_output_streams_are_closed",
              IMPLIES(verif_rv == 0, !verif_mon.stopped && verif_mon.calls >= 2 && process->pipe.out == -1 && process->pipe.err == -1));
     V_ASSERT("C16/drain.otherwise_a_negative_error", IMPLIES(verif_rv != 0 && !verif_mon.stopped, verif_rv < 0));
     V_ASSERT("C16/drain.every_chunk_read_was_delivered",
-             IMPLIES(!verif_mon.stopped || verif_mon.calls > 2,
-                     g.rl.rd_calls == verif_mon.last_rd_calls || (g.rl.rd_calls == verif_mon.last_rd_calls + 1 && g.rl.rd_ret < 0)));
-    V_ASSERT("C14/drain.invariant_kept", INV(process));
+             IMPLIES(verif_mon.calls >= 2,
+                     g.rl.rd_calls == verif_mon.last_rd_calls || (g.rl.rd_calls == verif_mon.last_rd_calls + 1 && g.rl.rd_ret < 0 && !verif_mon.stopped)));
+    if (verif_mon.calls >= 2) V_ASSERT("C14/drain.invariant_kept", INV(process));
     if (verif_rv == 0) V_CANARY("drain.both_closed_reachable");
     if (verif_rv == -ETIMEDOUT) V_CANARY("drain.timeout_reachable");
     if (verif_mon.stopped && verif_mon.calls > 3) V_CANARY("drain.sink_stops_after_chunk_reachable");
     if (verif_mon.closed_out && verif_mon.closed_err) V_CANARY("drain.both_streams_reported_closed_reachable");
+    if (verif_head_seen) V_CANARY("drain.loop_reachable");
   }
   (free)(process);
 }
